@@ -2,7 +2,7 @@
    Only statements closed by `exact`; proofs live in Avoid/Nudge.v (region model) and Avoid/NudgeScene.v (scene checker).
    The VPSC solver is a parameter of the region model; `solver_contract` is property C01's statement. *)
 From Coq Require Import QArith List Bool ZArith.
-From Adapt Require Import Num.Qaux Vpsc.VpscSpec Vpsc.Feas Avoid.NudgeModel Avoid.Nudge Avoid.NudgeScene.
+From Adapt Require Import Num.Qaux Vpsc.VpscSpec Vpsc.Feas Avoid.NudgeModel Avoid.Nudge Avoid.NudgeScene Avoid.NudgeRelModel Avoid.NudgeRel.
 Import ListNotations.
 Local Open Scope Q_scope.
 
@@ -115,3 +115,47 @@ Theorem C10_satisfied_without_flags_refuted :
     nudge_region_ok 0 R (gen R) true (o_sep o) (o_cs o) (o_xs o) (o_pos o) = false.
 Proof. exact satisfied_without_flags_refuted. Qed.
 Print Assumptions C10_satisfied_without_flags_refuted.
+
+(* ---- the segment relations and the region collection (Avoid/NudgeRelModel.v; tied to the code by the REL records of
+   hook H1 and the ALLSEG / SEGX records of hook H1b: exact correspondence on every run) *)
+Theorem C10_overlaps_sym nc fspp s t : overlaps_with nc fspp s t = overlaps_with nc fspp t s.
+Proof. exact (overlaps_sym nc fspp s t). Qed.
+Print Assumptions C10_overlaps_sym.
+
+Theorem C10_can_align_sym s t : can_align_with s t = can_align_with t s.
+Proof. exact (can_align_sym s t). Qed.
+Print Assumptions C10_can_align_sym.
+
+Theorem C10_should_align_sym nc fspp s t :
+  slo s < shi s -> slo t < shi t -> should_align_with nc fspp s t = should_align_with nc fspp t s.
+Proof. exact (should_align_sym nc fspp s t). Qed.
+Print Assumptions C10_should_align_sym.
+
+Theorem C10_overlaps_proper_spec nc fspp s t :
+  slo s < shi t -> slo t < shi s ->
+  (overlaps_with nc fspp s t = true <-> exists p, smin s <= p <= smax s /\ smin t <= p <= smax t) \/
+  (smax s < smin s \/ smax t < smin t).
+Proof. exact (overlaps_proper_spec nc fspp s t). Qed.
+Print Assumptions C10_overlaps_proper_spec.
+
+Theorem C10_seg_groups_total nc fspp l : seg_groups nc fspp l <> None.
+Proof. exact (seg_groups_total nc fspp l). Qed.
+Print Assumptions C10_seg_groups_total.
+
+Theorem C10_seg_groups_perm nc fspp l gs : seg_groups nc fspp l = Some gs -> Permutation.Permutation l (concat gs).
+Proof. exact (seg_groups_perm nc fspp l gs). Qed.
+Print Assumptions C10_seg_groups_perm.
+
+Theorem C10_seg_groups_separated nc fspp l gs :
+  seg_groups nc fspp l = Some gs ->
+  forall i j g1 g2 x y, i <> j -> nth_error gs i = Some g1 -> nth_error gs j = Some g2 -> In y g1 -> In x g2 ->
+    overlaps_with nc fspp (snd x) (snd y) = false /\ overlaps_with nc fspp (snd y) (snd x) = false.
+Proof. exact (seg_groups_separated nc fspp l gs). Qed.
+Print Assumptions C10_seg_groups_separated.
+
+Theorem C10_cp_limit_keeps pos mn mx c far p' :
+  cp_limit_ok pos mn mx c = true -> mn <= p' -> p' <= mx ->
+  (far <= c /\ c <= pos) \/ (pos <= c /\ c <= far) ->
+  (far <= c /\ c <= p') \/ (p' <= c /\ c <= far).
+Proof. exact (cp_limit_keeps pos mn mx c far p'). Qed.
+Print Assumptions C10_cp_limit_keeps.
